@@ -133,16 +133,24 @@ class Interval:
                 return lim_mul(b, a)
             return normalize_constant(a * b)
 
+        def lim_open(a: Expr, a_open: bool, b: Expr, b_open: bool) -> bool:
+            # The product of two end points is attained if both are, or if
+            # one of them is an attained zero
+            if (a == expr.Const(0) and not a_open) or (b == expr.Const(0) and not b_open):
+                return False
+            return a_open or b_open
+
         bounds = [
-            (lim_mul(self.start, other.start), self.left_open or other.left_open),
-            (lim_mul(self.start, other.end), self.left_open or other.right_open),
-            (lim_mul(self.end, other.start), self.right_open or other.left_open),
-            (lim_mul(self.end, other.end), self.right_open or other.right_open)
+            (lim_mul(self.start, other.start), lim_open(self.start, self.left_open, other.start, other.left_open)),
+            (lim_mul(self.start, other.end), lim_open(self.start, self.left_open, other.end, other.right_open)),
+            (lim_mul(self.end, other.start), lim_open(self.end, self.right_open, other.start, other.left_open)),
+            (lim_mul(self.end, other.end), lim_open(self.end, self.right_open, other.end, other.right_open))
         ]
         bounds = [bd for bd in bounds if bd[0] is not None]
 
         start, left_open = min(bounds, key=lambda p: (eval_expr(p[0]), p[1]))
-        end, right_open = max(bounds, key=lambda p: (eval_expr(p[0]), p[1]))
+        # Among equal candidates an attained (closed) end point wins on both sides
+        end, right_open = max(bounds, key=lambda p: (eval_expr(p[0]), not p[1]))
         return Interval(start, end, left_open, right_open)
 
     def inverse(self) -> "Interval":
